@@ -1029,6 +1029,15 @@ func (r *vRunner) run(c vCase) {
 			p := r.sb.real(string(vunhex(o.Path)))
 			os.MkdirAll(p, 0o777)
 			r.plain("putdir path=%s", vhex([]byte(r.sb.virt(p))))
+		case "symlink":
+			// path = the link, content = what it points to (both relative to the sandbox root)
+			link, target := r.sb.real(string(vunhex(o.Path))), r.sb.real(string(vunhex(o.Content)))
+			os.MkdirAll(filepath.Dir(link), 0o777)
+			os.MkdirAll(target, 0o777)
+			if err := os.Symlink(target, link); err != nil {
+				panic(err)
+			}
+			r.plain("symlink path=%s target=%s", vhex([]byte(r.sb.virt(link))), vhex([]byte(r.sb.virt(target))))
 		case "newprocess":
 			vResetProcess(defdir)
 			r.tests = map[string]*vT{}
